@@ -49,6 +49,7 @@ type checker struct {
 	c        *vk.Ctx
 	reach    map[string]bool // "<output>/<site>" reached by a marker
 	pageOK   map[string]bool // web pages whose reader passed calibration
+	capped   bool
 	htmlSeen *taintStats
 }
 
@@ -80,6 +81,7 @@ func (k *checker) partSites(idx *int64) {
 		for p := 0; p < nP; p++ {
 			if c.Mine(*idx) {
 				if c.Expired() {
+					k.capped = true
 					c.Cap(fmt.Sprintf("time budget: stopped at case index %d", *idx))
 					return
 				}
@@ -98,6 +100,7 @@ func (k *checker) partSites(idx *int64) {
 					}
 					if c.Mine(*idx) {
 						if c.Expired() {
+							k.capped = true
 							c.Cap(fmt.Sprintf("time budget: stopped at case index %d", *idx))
 							return
 						}
@@ -498,9 +501,9 @@ func (k *checker) checkWeb(cs Case, data map[string][]byte, asg assignment) {
 		if !k.pageOK[pg] {
 			continue
 		}
-		cs.Output = pg
+		cs.Output = pageURL(pg, asg)
 		c.Eval()
-		code, body, pan := drive.Get(r.Handlers, "GET", pageURL(pg, asg))
+		code, body, pan := drive.Get(r.Handlers, "GET", cs.Output)
 		if pan != nil {
 			c.Violationf("panic/web"+"/"+pageName(pg), cs, "panic: %v", pan)
 			continue
@@ -519,7 +522,7 @@ func (k *checker) checkWeb(cs Case, data map[string][]byte, asg assignment) {
 		}
 		c.Count("web/pages-checked", 1)
 		for _, f := range fs {
-			c.Violationf("html/"+f.Clause+"/"+pageName(pg)+"/"+sites[f.Site].Name, cs, "page %s: text planted at site %s is not neutralised (%s in %s context) at offset %d:\n%s", pg, sites[f.Site].Name, f.Clause, f.Context, f.Offset, f.Excerpt)
+			c.Violationf("html/"+f.Clause+"/"+sites[f.Site].Name, cs, "page %s: text planted at site %s is not neutralised (%s in %s context) at offset %d:\n%s", pg, sites[f.Site].Name, f.Clause, f.Context, f.Offset, f.Excerpt)
 		}
 	}
 }
@@ -599,6 +602,7 @@ func (k *checker) partPositions(idx *int64) {
 		for li := range layouts {
 			if c.Mine(*idx) {
 				if c.Expired() {
+					k.capped = true
 					c.Cap(fmt.Sprintf("time budget: stopped at case index %d", *idx))
 					return false
 				}
@@ -689,6 +693,7 @@ func (k *checker) partCancel(idx *int64) {
 				for _, mode := range modes {
 					if c.Mine(*idx) {
 						if c.Expired() {
+							k.capped = true
 							c.Cap(fmt.Sprintf("time budget: stopped at case index %d", *idx))
 							return
 						}
@@ -785,6 +790,30 @@ func (k *checker) finish() {
 	sort.Strings(rs)
 	for ctx, n := range k.htmlSeen.Seen {
 		c.Count("web/markers-seen/"+ctx, int64(n))
+	}
+	// non-vacuity: each reader must have read something that exercises it
+	if !k.capped {
+		for _, g := range []struct{ counter, what string }{
+			{"dot/markers-in-one-string", "no planted text was found inside a DOT string"},
+			{"dot/edges-checked", "no DOT edge was checked"},
+			{"callgrind/name-references", "no callgrind name back-reference was resolved"},
+			{"callgrind/relative-cost-positions", "no relative callgrind cost position was decoded"},
+			{"callgrind/relative-call-targets", "no relative callgrind call target was decoded"},
+			{"web/pages-checked", "no web page was checked"},
+		} {
+			if c.Counter(g.counter) == 0 {
+				c.Vacuous(g.what)
+			}
+		}
+		n := 0
+		for ctx := range k.htmlSeen.Seen {
+			if strings.HasSuffix(ctx, "/script-string") || strings.HasSuffix(ctx, "/text") || strings.HasSuffix(ctx, "/attr-dq") {
+				n++
+			}
+		}
+		if n < 3 {
+			c.Vacuous("planted text did not reach HTML text, attribute and script contexts")
+		}
 	}
 }
 
